@@ -179,6 +179,15 @@ CLAIMED = {
              "records it (all result columns of res_bus / res_line / res_trafo / res_trafo3w / res_load / res_gen enumerated).",
         note="Assumed: which ppc part derives from which table (DOMAIN in the contract). Not decided: numerical batch reading "
              "(read_batch_results), only_v_results copying, other controller classes, the solver."),
+    "C22": dict(
+        text="Proof with ghost table versions on the real drop_elements_simple / drop_buses / drop_lines / drop_trafos: group members are "
+             "detached while the element rows still exist, the rows are dropped afterwards, exactly the switches of the dropped lines / "
+             "transformers / three-winding transformers (codes l / t / t3) are selected for removal; proof for the generic row of the "
+             "referencing tables on the real reindex_elements (line, trafo, trafo3w, gen, load): switch, measurement and cost "
+             "references to re-indexed elements are mapped through the lookup, all others unchanged. The result-table index after "
+             "reindex_elements is the recorded known finding. Other edits: bounded stand-in (native edits of one fixed network).",
+        note="Assumed: pandas drop / set_index / .loc stores, get_indices = map through the lookup. Not decided deductively: fuse_buses, "
+             "select_subnet, merge_nets, reindex_buses, replace_*, controller and characteristic references, group links in reindex."),
 }
 
 NOT_APPLICABLE = {
